@@ -108,24 +108,40 @@ func valueAlphabet() []uint64 {
 
 func typeName(t b6.FeatureType) string { return t.String() }
 
+// Message throttling: at most 3 formatted violations per class and case and 9
+// per class and worker process, so that the kit's per-chunk / per-run caps
+// never lose a class; every occurrence is still counted (counter
+// "violations:<class>"). A replay runs in a fresh process and shows the message.
+var perCase = map[string]int{}
+var perProcess = map[string]int{}
+
+func violate(r *kit.Result, class, format string, a ...interface{}) {
+	r.Count("violations:"+class, 1)
+	perCase[class]++
+	perProcess[class]++
+	if perCase[class] <= 3 && perProcess[class] <= 9 {
+		r.Violate(class, format, a...)
+	}
+}
+
 // ---------------------------------------------------------------- part E
 
 func checkEncodings(r *kit.Result, id b6.FeatureID) {
 	// text
 	s := id.String()
 	if got := b6.FeatureIDFromString(s); got != id {
-		r.Violate("text:FeatureIDFromString(String)", "id %#v String()=%q parses to %#v", id, s, got)
+		violate(r, "text:FeatureIDFromString(String)", "id %#v String()=%q parses to %#v", id, s, got)
 	}
 	if got := b6.FeatureIDFromString("/" + s); got != id {
-		r.Violate("text:FeatureIDFromString(/String)", "id %#v \"/\"+String()=%q parses to %#v", id, "/"+s, got)
+		violate(r, "text:FeatureIDFromString(/String)", "id %#v \"/\"+String()=%q parses to %#v", id, "/"+s, got)
 	}
 	// JSON (direct and as a struct field)
 	if b, err := json.Marshal(id); err != nil {
-		r.Violate("json:marshal-error", "id %#v: %v", id, err)
+		violate(r, "json:marshal-error", "id %#v: %v", id, err)
 	} else {
 		var got b6.FeatureID
 		if err := json.Unmarshal(b, &got); err != nil || got != id {
-			r.Violate("json:roundtrip", "id %#v -> %s -> %#v err=%v", id, b, got, err)
+			violate(r, "json:roundtrip", "id %#v -> %s -> %#v err=%v", id, b, got, err)
 		}
 	}
 	type wrap struct {
@@ -133,28 +149,28 @@ func checkEncodings(r *kit.Result, id b6.FeatureID) {
 		IDs []b6.FeatureID
 	}
 	if b, err := json.Marshal(wrap{ID: id, IDs: []b6.FeatureID{id}}); err != nil {
-		r.Violate("json:marshal-error", "wrapped id %#v: %v", id, err)
+		violate(r, "json:marshal-error", "wrapped id %#v: %v", id, err)
 	} else {
 		var got wrap
 		if err := json.Unmarshal(b, &got); err != nil || got.ID != id || len(got.IDs) != 1 || got.IDs[0] != id {
-			r.Violate("json:roundtrip-field", "id %#v -> %s -> %#v err=%v", id, b, got, err)
+			violate(r, "json:roundtrip-field", "id %#v -> %s -> %#v err=%v", id, b, got, err)
 		}
 	}
 	// YAML
 	if b, err := yaml.Marshal(id); err != nil {
-		r.Violate("yaml:marshal-error", "id %#v: %v", id, err)
+		violate(r, "yaml:marshal-error", "id %#v: %v", id, err)
 	} else {
 		var got b6.FeatureID
 		if err := yaml.Unmarshal(b, &got); err != nil || got != id {
-			r.Violate("yaml:roundtrip", "id %#v -> %q -> %#v err=%v", id, b, got, err)
+			violate(r, "yaml:roundtrip", "id %#v -> %q -> %#v err=%v", id, b, got, err)
 		}
 	}
 	if b, err := yaml.Marshal(wrap{ID: id, IDs: []b6.FeatureID{id}}); err != nil {
-		r.Violate("yaml:marshal-error", "wrapped id %#v: %v", id, err)
+		violate(r, "yaml:marshal-error", "wrapped id %#v: %v", id, err)
 	} else {
 		var got wrap
 		if err := yaml.Unmarshal(b, &got); err != nil || got.ID != id || len(got.IDs) != 1 || got.IDs[0] != id {
-			r.Violate("yaml:roundtrip-field", "id %#v -> %q -> %#v err=%v", id, b, got, err)
+			violate(r, "yaml:roundtrip-field", "id %#v -> %q -> %#v err=%v", id, b, got, err)
 		}
 	}
 	// typed IDs (YAML is their only own encoding)
@@ -162,56 +178,56 @@ func checkEncodings(r *kit.Result, id b6.FeatureID) {
 	case b6.FeatureTypeArea:
 		a := id.ToAreaID()
 		if a.FeatureID() != id {
-			r.Violate("typed:AreaID", "id %#v ToAreaID().FeatureID()=%#v", id, a.FeatureID())
+			violate(r, "typed:AreaID", "id %#v ToAreaID().FeatureID()=%#v", id, a.FeatureID())
 		}
 		if b, err := yaml.Marshal(a); err == nil {
 			var got b6.AreaID
 			if err := yaml.Unmarshal(b, &got); err != nil || got != a {
-				r.Violate("yaml:roundtrip-AreaID", "%#v -> %q -> %#v err=%v", a, b, got, err)
+				violate(r, "yaml:roundtrip-AreaID", "%#v -> %q -> %#v err=%v", a, b, got, err)
 			}
 		} else {
-			r.Violate("yaml:marshal-error", "%#v: %v", a, err)
+			violate(r, "yaml:marshal-error", "%#v: %v", a, err)
 		}
 	case b6.FeatureTypeRelation:
 		a := id.ToRelationID()
 		if a.FeatureID() != id {
-			r.Violate("typed:RelationID", "id %#v ToRelationID().FeatureID()=%#v", id, a.FeatureID())
+			violate(r, "typed:RelationID", "id %#v ToRelationID().FeatureID()=%#v", id, a.FeatureID())
 		}
 		if b, err := yaml.Marshal(a); err == nil {
 			var got b6.RelationID
 			if err := yaml.Unmarshal(b, &got); err != nil || got != a {
-				r.Violate("yaml:roundtrip-RelationID", "%#v -> %q -> %#v err=%v", a, b, got, err)
+				violate(r, "yaml:roundtrip-RelationID", "%#v -> %q -> %#v err=%v", a, b, got, err)
 			}
 		} else {
-			r.Violate("yaml:marshal-error", "%#v: %v", a, err)
+			violate(r, "yaml:marshal-error", "%#v: %v", a, err)
 		}
 	case b6.FeatureTypeCollection:
 		a := id.ToCollectionID()
 		if a.FeatureID() != id {
-			r.Violate("typed:CollectionID", "id %#v ToCollectionID().FeatureID()=%#v", id, a.FeatureID())
+			violate(r, "typed:CollectionID", "id %#v ToCollectionID().FeatureID()=%#v", id, a.FeatureID())
 		}
 		if b, err := yaml.Marshal(a); err == nil {
 			var got b6.CollectionID
 			if err := yaml.Unmarshal(b, &got); err != nil || got != a {
-				r.Violate("yaml:roundtrip-CollectionID", "%#v -> %q -> %#v err=%v", a, b, got, err)
+				violate(r, "yaml:roundtrip-CollectionID", "%#v -> %q -> %#v err=%v", a, b, got, err)
 			}
 		} else {
-			r.Violate("yaml:marshal-error", "%#v: %v", a, err)
+			violate(r, "yaml:marshal-error", "%#v: %v", a, err)
 		}
 	}
 	// proto: struct level and through the wire
 	p := b6.NewProtoFromFeatureID(id)
 	if got := b6.NewFeatureIDFromProto(p); got != id {
-		r.Violate("proto:roundtrip", "id %#v -> %v -> %#v", id, p, got)
+		violate(r, "proto:roundtrip", "id %#v -> %v -> %#v", id, p, got)
 	}
 	if b, err := proto.Marshal(p); err != nil {
-		r.Violate("proto:marshal-error", "id %#v: %v", id, err)
+		violate(r, "proto:marshal-error", "id %#v: %v", id, err)
 	} else {
 		var q pb.FeatureIDProto
 		if err := proto.Unmarshal(b, &q); err != nil {
-			r.Violate("proto:unmarshal-error", "id %#v: %v", id, err)
+			violate(r, "proto:unmarshal-error", "id %#v: %v", id, err)
 		} else if got := b6.NewFeatureIDFromProto(&q); got != id {
-			r.Violate("proto:wire-roundtrip", "id %#v -> %x -> %#v", id, b, got)
+			violate(r, "proto:wire-roundtrip", "id %#v -> %x -> %#v", id, b, got)
 		}
 	}
 	// shell token, both print modes
@@ -257,7 +273,7 @@ func checkToken(r *kit.Result, id b6.FeatureID, abbreviate bool, origin string) 
 		got, err = api.ParseFeatureIDToken(tok)
 	})
 	if cls != "" {
-		r.Violate("token:"+form+":"+cls, "id %#v abbreviate=%v token %q: %s", id, abbreviate, tok, msg)
+		violate(r, "token:"+form+":"+cls, "id %#v abbreviate=%v token %q: %s", id, abbreviate, tok, msg)
 		return tok
 	}
 	if err != nil || got != id {
@@ -267,7 +283,7 @@ func checkToken(r *kit.Result, id b6.FeatureID, abbreviate bool, origin string) 
 		} else if !got.IsValid() {
 			sub = "parses-to-invalid-without-error"
 		}
-		r.Violate("token:"+form+":"+sub+":"+origin, "id %#v abbreviate=%v prints %q which parses to %#v err=%v", id, abbreviate, tok, got, err)
+		violate(r, "token:"+form+":"+sub+":"+origin, "id %#v abbreviate=%v prints %q which parses to %#v err=%v", id, abbreviate, tok, got, err)
 	}
 	r.AddOutcome("token:" + form)
 	return tok
@@ -463,6 +479,9 @@ func main() {
 
 			return kit.FuncSpace{N: total, F: func(i int64) kit.Result {
 				var r kit.Result
+				for k := range perCase {
+					delete(perCase, k)
+				}
 				switch {
 				case i < nE:
 					c := eCases[i]
@@ -518,7 +537,7 @@ func main() {
 						r.Evals++
 						id := b6.PointIDFromGBPostcode(pc)
 						if !id.IsValid() {
-							r.Violate("postcode:constructor-rejects", "PointIDFromGBPostcode(%q) = %#v (invalid) for a well-formed %d-character alphanumeric postcode", pc, id, len(pc))
+							violate(&r, "postcode:constructor-rejects", "PointIDFromGBPostcode(%q) = %#v (invalid) for a well-formed %d-character alphanumeric postcode", pc, id, len(pc))
 							continue
 						}
 						r.Distinct++
@@ -540,7 +559,7 @@ func main() {
 							r.Evals++
 							id := b6.FeatureIDFromUKONSCode(code, y, b6.FeatureTypeArea)
 							if !id.IsValid() {
-								r.Violate("ons:constructor-rejects", "FeatureIDFromUKONSCode(%q, %d, area) = %#v (invalid)", code, y, id)
+								violate(&r, "ons:constructor-rejects", "FeatureIDFromUKONSCode(%q, %d, area) = %#v (invalid)", code, y, id)
 								continue
 							}
 							r.Distinct++
@@ -562,7 +581,7 @@ func main() {
 					ai := i - nE - nAliasVals - nPC - nONS
 					a := menu[ai]
 					if a.Less(a) {
-						r.Violate("Less:reflexive", "%#v.Less(itself) is true", a)
+						violate(&r, "Less:reflexive", "%#v.Less(itself) is true", a)
 					}
 					lessAB := make([]bool, len(menu))
 					for bi, b := range menu {
@@ -572,25 +591,25 @@ func main() {
 						ref := refCmp(a, b)
 						switch {
 						case ab && ba:
-							r.Violate("Less:not-asymmetric", "%#v and %#v are each Less than the other", a, b)
+							violate(&r, "Less:not-asymmetric", "%#v and %#v are each Less than the other", a, b)
 						case !ab && !ba && a != b:
-							r.Violate("Less:not-total", "distinct %#v and %#v: neither is Less", a, b)
+							violate(&r, "Less:not-total", "distinct %#v and %#v: neither is Less", a, b)
 						case ab != (ref < 0):
-							r.Violate("Less:differs-from-lexicographic(type,namespace,value)", "%#v.Less(%#v)=%v, reference compare=%d", a, b, ab, ref)
+							violate(&r, "Less:differs-from-lexicographic(type,namespace,value)", "%#v.Less(%#v)=%v, reference compare=%d", a, b, ab, ref)
 						}
 						for ti, nt := range nts {
 							var cl bool
 							var da, db b6.FeatureID
 							cls, msg := kit.Catch(func() { cl, da, db = compactLess(nt, a, b) })
 							if cls != "" {
-								r.Violate("compact:"+cls, "table %d, %#v, %#v: %s", ti, a, b, msg)
+								violate(&r, "compact:"+cls, "table %d, %#v, %#v: %s", ti, a, b, msg)
 								continue
 							}
 							if da != a || db != b {
-								r.Violate("compact:encode-decode-id", "table %d: %#v,%#v decode back as %#v,%#v", ti, a, b, da, db)
+								violate(&r, "compact:encode-decode-id", "table %d: %#v,%#v decode back as %#v,%#v", ti, a, b, da, db)
 							}
 							if cl != ab {
-								r.Violate("compact:order-differs-from-Less", "table %d: compact.FeatureIDs.Less=%v but %#v.Less(%#v)=%v", ti, cl, a, b, ab)
+								violate(&r, "compact:order-differs-from-Less", "table %d: compact.FeatureIDs.Less=%v but %#v.Less(%#v)=%v", ti, cl, a, b, ab)
 							}
 						}
 						if ab {
@@ -611,7 +630,7 @@ func main() {
 							r.Evals++
 							if b.Less(c) && !lessAB[ci] {
 								if bad < 3 {
-									r.Violate("Less:not-transitive", "%#v < %#v < %#v but not a < c", a, b, c)
+									violate(&r, "Less:not-transitive", "%#v < %#v < %#v but not a < c", a, b, c)
 								}
 								bad++
 							}
